@@ -46,6 +46,9 @@ func (ex *Exec) mapLen(st *State, m Term) Value {
 	mc := ex.mapCompsOf(m.T)
 	l := sx("select", ex.mapHeap(st, mc.ln), m.S)
 	ex.assume(st, sx("<=", "0", l))
+	// an empty map has no keys (the length is the number of present keys)
+	hasM := ex.vc.define("lhas", sx("Array", mc.ks, "Bool"), sx("select", ex.mapHeap(st, mc.has), m.S))
+	ex.assume(st, sImp(sEq(l, "0"), fmt.Sprintf("(forall ((qk! %s)) (! (not (select %s qk!)) :pattern ((select %s qk!))))", mc.ks, hasM, hasM)))
 	return Term{S: l, T: types.Typ[types.Int]}
 }
 
